@@ -513,6 +513,12 @@ func cacheKeyOf(pkg *pkgFiles, m method, consts map[string]string, fields map[st
 			out = append(out, comp{false, field("expr")})
 		case "q.metric":
 			out = append(out, comp{false, field("metric")})
+		case "formatTime(q.r.Start)": // the representation sent on the wire
+			field("r.Start")
+			out = append(out, comp{false, "slice_start"})
+		case "formatTime(q.r.End)":
+			field("r.End")
+			out = append(out, comp{false, "slice_end"})
 		case "q.r.Start.Format(time.RFC3339)":
 			field("r.Start")
 			out = append(out, comp{false, "slice_start"})
